@@ -3,7 +3,7 @@
 Keys (hook table HOOKS for all of them):
   "Model.add_cons_vars", "Model.remove_cons_vars"     (were: recorded calls in the hook tables of ~12 contract modules, "passes its
                                                        argument on" in the trusted base)
-  "Model.tolerance@setter"                            (was: assumed=True in contracts/misc_small.py; that registration is replaced)
+  (the Model.tolerance setter, assumed in contracts/misc_small.py until round 5, is proved in contracts/w_tolerance.py)
   "Model.objective_direction@setter"                  (body under @resettable; the wrapper is proved in contracts/c03_context.py)
 
 PROVED, from the documentation of each function:
@@ -12,14 +12,6 @@ PROVED, from the documentation of each function:
     Model.remove_cons_vars(what): exactly one call remove_cons_vars_from_problem(self, what).  What those two functions do (solver
     call + undo registration in a context) is proved under C03 (contracts/c03_context.py); here they are only RECORDED (ghost trace
     "w_trace"), i.e. the leaf assumption is nil: the callee is cobrapy's own, proved elsewhere.
-  * Model.tolerance = value: for each of the three optlang tolerances (feasibility, optimality, integrality) that the solver
-    interface supports, the tolerance object of THIS model's solver configuration holds `value` afterwards, an unsupported one is
-    left as it was (AttributeError swallowed, as documented by the log message); self._tolerance = value on EVERY path; no other
-    tolerance object and no cobra object is written.
-    Leaves (assumed, optlang): `solver.configuration`, `configuration.tolerances` are functions of the solver object
-    (lp_configuration_of, lp_tolerances_of); assigning tolerance attribute <name> either stores the value in that attribute of that
-    tolerances object (heap fields tol_feasibility / tol_optimality / tol_integrality) or raises AttributeError with nothing written,
-    according to the ghost predicate tol_supported(tolerances, name); logger / interface_to_str / the f-strings are opaque.
   * Model.objective_direction = value (the function under @resettable): with v = value.lower(): v.startswith("max") -> the
     solver objective's direction is "max"; else v.startswith("min") -> "min"; else ValueError and NOTHING is changed; only the
     direction attribute of the solver's objective is written.  str.lower / str.startswith are uninterpreted (str_lower,
@@ -33,8 +25,6 @@ Mutation trials (tools/mutate_and_run.sh, contracts.w_model_small --hooks HOOKS 
   model.py `add_cons_vars_to_problem(self, what, **kwargs)` -> `(self, what)`            Model.add_cons_vars: sloppy case post sat
   model.py `add_cons_vars_to_problem(self, what, **kwargs)` -> `remove_cons_vars_from_problem(self, what)`   post sat (both cases)
   model.py `remove_cons_vars_from_problem(self, what)` -> `remove_cons_vars_from_problem(self, [what])`      post sat
-  model.py `solver_tolerances.optimality = value` -> `solver_tolerances.feasibility = value`                   tolerance: post sat
-  model.py `self._tolerance = value` -> `pass`                                                              tolerance: post sat
   model.py `self.solver.objective.direction = "min"` -> `= "max"`                                          objective_direction: post sat
   model.py `elif value.startswith("min"):` -> `elif value.startswith("mi"):`                                 post / expected-ValueError sat
   model.py `value = value.lower()` -> `value = value`                                                         post sat
@@ -53,7 +43,7 @@ REG.classes.setdefault("LPObjects", [])
 
 
 def _global(eng, name):
-    if name in _FWD or name == "interface_to_str":
+    if name in _FWD:
         return VFunc("abstract", name)
     return None
 
@@ -62,8 +52,6 @@ def _call_abstract(eng, st, f, pos, kw):
     if f.a in _FWD:
         tr = st.ghost.get("w_trace", ())
         return [("ok", st.setghost("w_trace", tr + ((f.a, tuple(pos), dict(kw)),)), NONE)]
-    if f.a == "interface_to_str":
-        return [("ok", st, VOpaque("interface_to_str()"))]
     return None
 
 
@@ -121,84 +109,8 @@ REG.add(Contract(MM, "Model.remove_cons_vars", "C03", [("self", TRef("Model")), 
                  props=["C03", "C02"],
                  note="PROVED: exactly one call remove_cons_vars_from_problem(self, what) (recorded; that function is proved under C03)"))
 
-# ================================================================ Model.tolerance setter
-TOLS = ("feasibility", "optimality", "integrality")
-REG.fields.update({"tol_" + t: "real" for t in TOLS})
-for _c in ("LPConfiguration", "LPTolerances", "LPInterface"):
-    REG.classes.setdefault(_c, [])
-cfg_of = z3.Function("lp_configuration_of", Ref, Ref)
-tol_of = z3.Function("lp_tolerances_of", Ref, Ref)
-itf_of = z3.Function("lp_interface_of", Ref, Ref)
-tol_supported = z3.Function("tol_supported", Ref, Id, z3.BoolSort())   # does the interface let this tolerance be set?
-
-
-def _solver_ref(v):
-    """identity of a solver value: a symbolic reference, or the materialised Solver object of a materialised model"""
-    if isinstance(v, VRef) and v.cls in ("LPSolver", "Solver"):
-        return v.t
-    if isinstance(v, VObj) and v.kind == "obj" and v.cls in ("Solver", "LPSolver"):
-        return ident_of(v.oid)
-    return None
-
-
-def _getattr(eng, st, v, name):
-    s = _solver_ref(v)
-    if s is not None and name == "configuration":
-        return [("ok", st, VRef(cfg_of(s), "LPConfiguration"))]
-    if s is not None and name == "interface":
-        return [("ok", st, VRef(itf_of(s), "LPInterface"))]
-    if isinstance(v, VRef) and v.cls == "LPConfiguration" and name == "tolerances":
-        return [("ok", st, VRef(tol_of(v.t), "LPTolerances"))]
-    return None
-
-
-def _setattr(eng, st, v, name, val):
-    if isinstance(v, VRef) and v.cls == "LPTolerances" and name in TOLS:
-        outs = []
-        for yes, s2 in eng.branch(st, tol_supported(v.t, id_lit(name))):
-            if yes:
-                outs.append(("ok", eng.heap_write(s2, "tol_" + name, v.t, val), NONE))
-            else:
-                outs.append(eng.raise_(s2, "AttributeError"))
-        return outs
-    return None
-
-
-def _tol_self():
-    return TObj("Model", {"_solver": TObj("Solver", {}), "_tolerance": TReal()})
-
-
-def _tol_obj(E):
-    return tol_of(cfg_of(_solver_ref(E.s0.objs[E["self"].oid]["attr:_solver"])))
-
-
-def _tol_post(E):
-    t = _tol_obj(E)
-    val = E.eng.to_real(E["value"])
-    cs = []
-    for nm in TOLS:
-        k0, v0 = E.eng.heap_arr(E.s0, "tol_" + nm)
-        k1, v1 = E.eng.heap_arr(E.s1, "tol_" + nm)
-        sup = tol_supported(t, id_lit(nm))
-        cs.append(k1 == z3.If(sup, z3.Store(k0, t, val.k), k0))
-        cs.append(v1 == z3.If(sup, z3.Store(v0, t, val.v), v0))
-    cur = E.s1.objs[E["self"].oid].get("attr:_tolerance")
-    cs.append(xr_eq(E.eng.to_real(cur), val) if cur is not None else z3.BoolVal(False))
-    return z3.And(*cs)
-
-
-def _tol_mod(E):
-    def mk(st):
-        from pyvc.values import xr_fresh
-        v, c = xr_fresh("tolv")
-        return st.assume(c), v
-    return [("heap", "tol_" + nm) for nm in TOLS] + [("attr", E["self"], "_tolerance", mk)]
-
-
-REG.add(Contract(MM, "Model.tolerance@setter", "C12", [("self", _tol_self()), ("value", TReal())], [Case("any", ensures=_tol_post)],
-                 modifies=_tol_mod, key="Model.tolerance@setter",
-                 note="PROVED (was assumed): each SUPPORTED optlang tolerance of this model's solver configuration := value, an unsupported "
-                      "one untouched, self._tolerance := value; nothing else written"))
+from . import w_tolerance as WT  # noqa  (the Model.tolerance setter lives in a module of its own)
+from pyvc.contract import chain_hooks  # noqa
 
 # ================================================================ Model.objective_direction setter (the function under @resettable)
 str_lower = z3.Function("str_lower", Id, Id)
@@ -266,5 +178,5 @@ REG.add(Contract(MM, "Model.objective_direction@setter", "C03", [("self", C4.MOD
                       "raises ValueError with nothing changed; str.lower / str.startswith uninterpreted with native facts for the "
                       "documented spellings"))
 
-HOOKS = {"global": _global, "call_abstract": _call_abstract, "getattr": _getattr, "setattr": _setattr, "call_method": _call_method}
-KEYS = ["Model.add_cons_vars", "Model.remove_cons_vars", "Model.tolerance@setter", "Model.objective_direction@setter"]
+HOOKS = {"global": _global, "call_abstract": _call_abstract, "call_method": _call_method}
+KEYS = ["Model.add_cons_vars", "Model.remove_cons_vars", "Model.objective_direction@setter"]
